@@ -216,7 +216,7 @@ def write_harness_files(shapes, nfiles, twin_every, rng):
 
 def run_crosshair(path, per_cond_timeout, wall_timeout):
     env = dict(os.environ)
-    env["PYTHONPATH"] = "/repo/src" + (":" + env["PYTHONPATH"] if env.get("PYTHONPATH") else "")
+    env["PYTHONPATH"] = common.REPO + "/src" + (":" + env["PYTHONPATH"] if env.get("PYTHONPATH") else "")
     cmd = [str(ROOT / ".venv/bin/crosshair"), "check", "--report_all", "--per_condition_timeout", str(per_cond_timeout), path]
     try:
         p = subprocess.run(cmd, capture_output=True, text=True, timeout=wall_timeout, env=env)
@@ -266,7 +266,7 @@ def replay_call(path, msg):
     fn, args = m.group(1), m.group(2)
     code = f"import importlib.util,sys\nspec=importlib.util.spec_from_file_location('h', {path!r})\nmod=importlib.util.module_from_spec(spec)\nspec.loader.exec_module(mod)\nprint('RESULT', mod.{fn}({args}))\n"
     env = dict(os.environ)
-    env["PYTHONPATH"] = "/repo/src"
+    env["PYTHONPATH"] = common.REPO + "/src"
     p = subprocess.run(["/venv/bin/python", "-c", code], capture_output=True, text=True, env=env, timeout=120)
     if "RESULT False" in p.stdout:
         return True, f"{fn}({args}) returns False"
